@@ -1,0 +1,19 @@
+//go:build verif
+
+package linkedhashmap
+
+import "github.com/emirpasic/gods/v2/lists/doublylinkedlist"
+
+// VerifTable returns a copy of the hash table.
+func (m *Map[K, V]) VerifTable() map[K]V {
+	out := make(map[K]V, len(m.table))
+	for k, v := range m.table {
+		out[k] = v
+	}
+	return out
+}
+
+// VerifOrdering returns the list that records the insertion order of the keys.
+func (m *Map[K, V]) VerifOrdering() *doublylinkedlist.List[K] {
+	return m.ordering
+}
